@@ -3,5 +3,7 @@ CONSTANTS
   Types = @TYPES@
   NRand = @NRAND@
   Seed = @SEED@
+  Shard = @SHARD@
+  NShards = @NSHARDS@
 INVARIANTS Emit
 CHECK_DEADLOCK FALSE
